@@ -215,3 +215,69 @@ func VHarness_C04_AddRejects() {
 		vAssert(len(t) == 3 && t[x.id].Parent == parent, "accepted revision recorded under its parent")
 	}
 }
+
+// VHarness_C04_Prune: pruneRevisions keeps a well-formed forest: no dangling parent links, every live
+// (non-tombstoned) leaf survives as a leaf, the count returned equals the number of removed revisions, and
+// nothing deeper than maxDepth below its nearest leaf survives.
+func VHarness_C04_Prune() {
+	n := vParam("revs", 4)
+	revs := vhRevSet(n)
+	order := make([]int, n)
+	for i := range order {
+		order[i] = i
+	}
+	t := vhInsertAll(revs, order)
+	maxDepth := uint32(vNondetRange(1, 3))
+	// reference: distance of every revision to its nearest leaf (leaf = 1)
+	depth := make([]int, n)
+	isLeaf := make([]bool, n)
+	for i := range revs {
+		isLeaf[i] = true
+		for j := range revs {
+			if revs[j].parent == i {
+				isLeaf[i] = false
+			}
+		}
+	}
+	for i := n - 1; i >= 0; i-- {
+		if isLeaf[i] {
+			depth[i] = 1
+			continue
+		}
+		best := 1 << 20
+		for j := range revs {
+			if revs[j].parent == i && depth[j]+1 < best {
+				best = depth[j] + 1
+			}
+		}
+		depth[i] = best
+	}
+	before := len(t)
+	pruned, _ := t.pruneRevisions(context.Background(), maxDepth, "")
+	vAssert(pruned == before-len(t), "pruneRevisions reports the number of removed revisions")
+	for _, info := range t {
+		if info.Parent != "" {
+			_, ok := t[info.Parent]
+			vAssert(ok, "no dangling parent link after pruning")
+		}
+	}
+	for i := range revs {
+		info, present := t[revs[i].id]
+		if isLeaf[i] && !revs[i].deleted {
+			vAssert(present, "a live leaf survives pruning")
+			if present {
+				vAssert(t.isLeaf(revs[i].id), "a live leaf is still a leaf after pruning")
+			}
+		}
+		if present && before > int(maxDepth) {
+			vAssert(depth[i] <= int(maxDepth), "nothing deeper than maxDepth below its nearest leaf survives")
+			vAssert(info.Deleted == revs[i].deleted, "pruning does not change tombstone flags")
+			if info.Parent != "" {
+				vAssert(info.Parent == vhParentID(revs, i), "pruning only removes or clears parent links, never rewires them")
+			}
+		}
+	}
+	if pruned > 0 {
+		vCover("pruned-something")
+	}
+}
